@@ -46,8 +46,8 @@ def gen(d, tier):
     if d.chance(1, 3):
         # handler-triggered events: acceptance is a function of the line (at most 8 triggers, ring capacity 8), only
         # the interleaving with command units may depend on the schedule
-        ev = S.mk_cmd(b"#E", "r" if d.below(2) else "", [S.mk_var(S.INT, 2, S.RO, d.bytes(2))] if d.chance(3, 4) else [],
-                      scripts={"1r": [S.mk_step(DATA_OK, d.below(3), b"#tag")] * 3})
+        ev = S.mk_cmd(b"~EV", "r" if d.below(2) else "", [S.mk_var(S.INT, 2, S.RO, d.bytes(2))] if d.chance(3, 4) else [],
+                      scripts={"1r": [S.mk_step(DATA_OK, d.below(3), b"~EVtag")] * 3})
         if not ev["vars"]:
             ev["h"] = "r"
         s["groups"][-1]["cmds"].append(ev)
@@ -74,7 +74,7 @@ def producers(out):
     units, rest = split_units(out)
     cmd, ev = [], []
     for kind, payload, nl in units:
-        if payload.startswith(b"#"):
+        if payload.startswith(b"~EV"):
             ev.append(payload)
         else:
             cmd.append((kind, payload, nl))
